@@ -8,7 +8,7 @@ from .. import sym as S
 from ..engine import Check
 from ..loader import AnalysisError
 from ..recon import _own_nodes
-from ..rulelib import (split_alternatives, _typestate, calls_named, carried_with_entry, check_const, check_layout, conds_sym, eval_conds,
+from ..rulelib import (select_branch, split_alternatives, _typestate, calls_named, carried_with_entry, check_const, check_layout, conds_sym, eval_conds,
                        func_outcomes, insts_in_func, loop_carried, loops_of, reach_table)
 
 LEVEL = "other"
@@ -149,7 +149,21 @@ def hyperv_file(chk: Check):
             and isinstance(kws["key"], ast.Lambda) and ast.unparse(kws["key"].body).endswith(".sequence_number")
     chk.decide(oks, "K-DISPATCH", "key-tables-by-sequence-number", sorts[0] if sorts else inner,
                "key tables sharing an index are ordered by sequence number, highest first")
-    idx_ok = any(isinstance(n, ast.Subscript) and ast.unparse(n.slice).endswith(".index") for n in ast.walk(inner))
+    # the key under which a table is registered is its own index: self.key_tables[kt.index] or .setdefault(kt.index, [])
+    def _is_index_of_table(t):
+        if t[0] == "f" and t[1] == "HyperVStorageKeyTable":
+            from ..rulelib import field_map
+
+            _st, fm = field_map(chk, CREL, "HyperVStorageKeyTable")
+            return t[2] == fm["index"].offset
+        return t[0] == "attr" and t[2] == "index" and t[1][0] == "call" and t[1][1].endswith("HyperVStorageKeyTable")
+
+    idx_ok = False
+    for n in ast.walk(inner):
+        if isinstance(n, ast.Subscript) and "key_tables" in ast.unparse(n.value):
+            idx_ok = idx_ok or _is_index_of_table(R.expr(init, n.slice, init.cfg.node_for(n)))
+        if isinstance(n, ast.Call) and isinstance(n.func, ast.Attribute) and n.func.attr == "setdefault" and n.args and "key_tables" in ast.unparse(n.func.value):
+            idx_ok = idx_ok or _is_index_of_table(R.expr(init, n.args[0], init.cfg.node_for(n)))
     chk.decide(idx_ok, "K-PROV", "key-tables-grouped-by-index", inner, "key tables are grouped under their table index")
     # linking
     links = [l for l in floops if l is not inner and any(isinstance(x, ast.Attribute) and x.attr == "children" for x in ast.walk(l))]
@@ -285,7 +299,13 @@ def entry(chk: Check):
             if tname in ("Int", "UInt", "Double", "Bool"):
                 fmt = {"Int": "<q", "UInt": "<Q", "Double": "<d", "Bool": "<I"}[tname]
                 n = struct.calcsize(fmt)
-                ok = kind == "return" and bool(find(hit[3], lambda x: x[0] == "call" and x[1] == "ext:struct.unpack" and x[2][0] == S.C(fmt)
+                def _fmt_is(x, fmt=fmt, val=val):
+                    try:
+                        return S.ev(x, val) == fmt  # the format may come out of a table indexed by the type
+                    except S.EvalError:
+                        return False
+
+                ok = kind == "return" and bool(find(hit[3], lambda x: x[0] == "call" and x[1] == "ext:struct.unpack" and _fmt_is(x[2][0])
                                                     and bool(find(x[2][1], lambda y: y[0] == "slice" and y[1] == S.C(None) and y[2] == S.C(n)))))
                 if tname == "Bool":
                     ok = ok and hit[3][0] == "cmp" and hit[3][1] == "!=" and hit[3][3] == S.C(0)
@@ -296,7 +316,7 @@ def entry(chk: Check):
             elif tname in ("String", "Array"):
                 ok = kind == "return"
                 if ok:
-                    t = hit[3]
+                    t = select_branch(hit[3], val)  # `decode(..) if type == String else data`: the arm this type takes
                     if tname == "String":
                         ok = t[0] == "call" and t[1] == ".decode" and t[2][1:] == (S.C("utf-16-le"),)
                     else:
